@@ -182,6 +182,7 @@ def run(ctx):
     # read from the path summaries of increment(): what self.logZ, self.logw and the recorded volume end up holding in terms
     # of the values on entry (temporaries such as `oldZ = self.logZ`, renamed locals and argument order do not matter)
     from ..summ import summarise as _summ02
+    from ..q import conjuncts as _conj02
 
     tv = tvar.get(inc.qual) or "?"
     ipaths = [pa_ for pa_ in _summ02(inc.node, max_paths=400) if pa_.end != "raise"]
@@ -197,10 +198,15 @@ def run(ctx):
                 w_ = b_["b"]
             elif canon(b_["b"]) == "self.logZ":
                 w_ = b_["a"]
-        ok_acc = ok_acc and w_ is not None
+        # a path taken only for logL == -inf may leave the evidence alone: its weight is log(0), and logaddexp(Z, -inf) == Z
+        zero_ = any(tr_ is True and canon(e_) in ("isneginf(logL)", "logL == -inf", "logL == -np.inf", "-inf == logL") for t0_, tr0_ in pa_.guards for e_, tr_ in _conj02(t0_, tr0_))
+        unchanged_ = z_ is None or canon(z_) == "self.logZ"
+        ok_acc = ok_acc and (w_ is not None or (zero_ and unchanged_))
         t_ = pa_.env.get(tv)
         lw_ = pa_.env.get("self.logw")
-        if w_ is not None and t_ is not None:
+        if zero_ and unchanged_ and w_ is None:
+            pass
+        elif w_ is not None and t_ is not None:
             seen_w = src(w_)[:100]
             lf_ = linform(w_)
             tc_ = canon(t_)
